@@ -882,3 +882,49 @@ func (c *Ctx) pooledObjectsClean(fns []*ssa.Function) (bad []string, gets int) {
 	sort.Strings(bad)
 	return bad, gets
 }
+
+// chainContains (shared, round 8): a protection is only as good as the chain that contains it. On every returning path
+// of rest.(*engine).buildChainWithNativeMiddlewares the middleware switch `sw` was tested, and where it was found on, the
+// middleware built by `ctor` is part of the returned chain — for every kind of route (an early return for a class of
+// routes, e.g. event streams, that comes before the switch leaves those routes without the protection).
+func chainContains(c *Ctx, rule, sw, ctor, what string) {
+	f := c.fn(rule, "rest", "(*engine).buildChainWithNativeMiddlewares")
+	if f == nil {
+		return
+	}
+	ps := c.paths(rule, f, px.Config{MaxPaths: 200000})
+	isCtor := calleeIs("rest/handler." + ctor)
+	seenOn := false
+	c.forall(rule, "rest.(*engine).buildChainWithNativeMiddlewares#"+sw, "every returning path tested the "+sw+" switch, and where it is on "+what+" is part of the returned chain — whatever the route's features", f, ps, func(p *px.Path) (bool, string) {
+		if p.Exit != px.ExitReturn {
+			return true, ""
+		}
+		tested, on := false, false
+		for _, b := range p.All(px.KindIs(px.EvBranch)) {
+			if fieldLoadDeep(b.Cond, sw, nil) {
+				tested = true
+				if b.Taken {
+					on = true
+				}
+			}
+		}
+		if !tested {
+			return false, "a chain is returned without the " + sw + " switch having been consulted: routes taking this path are served without " + what
+		}
+		if !on {
+			return true, ""
+		}
+		seenOn = true
+		cs := p.All(isCtor)
+		if len(cs) != 1 {
+			return false, fmt.Sprintf("the %s switch is on but %s is built ×%d", sw, ctor, len(cs))
+		}
+		if len(p.Results) == 0 || !dependsOn(p, p.Results[0], cs[0].Res) {
+			return false, ctor + " is built but not part of the returned chain"
+		}
+		return true, ""
+	})
+	if !seenOn {
+		c.R.Undecided(rule, "rest.(*engine).buildChainWithNativeMiddlewares#"+sw+"-on", "the switch is recognised", "no path found the "+sw+" switch on")
+	}
+}
